@@ -183,9 +183,9 @@ def run(ctx):
     named = [b for b in tg['binops'] if not b['src'].startswith('__')]
     un_d = [u for u in tg['unops'] if u['src'].startswith('__')]
     un_n = [u for u in tg['unops'] if not u['src'].startswith('__')]
-    if not thorough:
-        named = named[(ctx.seed % 4)::4]
-        un_n = un_n[(ctx.seed % 6)::6]
+    if not thorough:    # a rotating part of the generic ones, all of those UGen or Python treat specially
+        named = [b for b in named if b['special']] + [b for b in named if not b['special']][(ctx.seed % 4)::4]
+        un_n = [u for u in un_n if u['special']] + [u for u in un_n if not u['special']][(ctx.seed % 6)::6]
     recv2 = [sh for sh in shapes['recv'] if len(sh['args']) == 2]
     recv1 = [sh for sh in shapes['recv'] if len(sh['args']) == 1]
     mixed2 = [sh for sh in shapes['q'] if len(sh['args']) == 2 and is_list(sh['args'][0]) and 't' not in sh['kinds']]
